@@ -391,7 +391,9 @@ def rule_half(ctx):
 
 def rule_all(ctx):
     p = ctx.p
-    ctx.rule("C07.ALL", "the client's lister yields each parsed line once, joined to the listing's own path; stat() reads the facts line")
+    ctx.rule("C07.ALL", "server listing loops emit one line per entry; the client's lister yields each parsed line once, joined to the listing's own path; stat() reads the facts line")
+    from .c01 import rule_listing_loops
+    rule_listing_loops(ctx, "C07.ALL")
     lst = p.nested(p.method("Client", "list"), "__anext__")
     rets = [r for r in walk_no_nested(lst) if isinstance(r, ast.Return)]
     ok = False
@@ -404,24 +406,15 @@ def rule_all(ctx):
                 ok = True
     ctx.ob("C07.ALL", lst, "the lister returns (listing path / parsed name, parsed info) for the line just read", ok,
            "the lister does not return the parsed entry joined to the listing's own path", construct="list:return")
-    # each loop iteration reads one line and either skips ./.. or returns
-    wl = [w for w in walk_no_nested(lst) if isinstance(w, ast.While) and isinstance(w.test, ast.Constant) and w.test.value is True]
-    ok = False
-    if wl:
-        ok = True
-        for ev, out in Cfg(lambda n: [], p.issub, unroll=1).seq(wl[0].body):
-            if out[0] == "cut":
-                continue
-            reads = sum(1 for n in evaluated(ev) for c in walk_self(n) if isinstance(c, ast.Call) and is_method_call(c, "readline"))
-            if out[0] == "continue":
-                conds = [(e[1], e[2]) for e in ev if e[0] == "branch"]
-                dot = any(pol and isinstance(t, ast.Compare) and isinstance(t.ops[0], ast.In) and _dot_set(t.comparators[0]) for t, pol in conds)
-                if not dot:
-                    ok = False
-            elif out[0] not in ("return", "raise"):
-                ok = False
-    ctx.ob("C07.ALL", lst, "every line read is returned unless it is '.'/'..' (no other skip)", ok,
-           "the client's lister drops listing lines for a reason other than being '.' or '..'", construct="list:skip")
+    # no ordinary entry is skipped (evaluated for the sample names 'x' and '.x'); '.'/'..' are (C19.DOT)
+    from .c19 import lister_dot_table
+    table = lister_dot_table(p, lst)
+    if table is None:
+        raise Inconclusive("C07.ALL: the lister's read loop was not found")
+    for text in ("x", ".x"):
+        outs = table[text]
+        ctx.ob("C07.ALL", lst, f"entry {text!r}: reachable outcomes {sorted(outs)}: returned, never skipped", "skip" not in outs and "return" in outs,
+               f"the client's lister drops the listing entry {text!r} (outcomes {sorted(outs)}): only '.' and '..' may be skipped", construct=f"list:skip:{text}")
     st = p.method("Client", "stat")
     ok = any(isinstance(c, ast.Call) and is_self_call(c, {"parse_mlsx_line"}) and c.args and isinstance(c.args[0], ast.Call) and is_method_call(c.args[0], "lstrip")
              and isinstance(c.args[0].func.value, ast.Subscript) and isinstance(c.args[0].func.value.slice, ast.Constant) and c.args[0].func.value.slice.value == 1 for c in walk_no_nested(st))
